@@ -145,6 +145,13 @@ def objOfTok (s : State) : Scan.Tok → State × Obj
     let (v, r) := s.vm.alloc (.bytes bytes.toArray)
     ({ s with vm := v }, .str r 0 bytes.length)
 
+/-- Go `sort.Slice(keys, func(i, j int) bool { return keys[i] < keys[j] })` on `[]Name`: ascending in the
+byte order of the names (a `Name` of the model is a `String` whose characters are the bytes, so
+`String`'s order is Go's).  The keys of a dictionary are distinct, so stability does not matter. -/
+def sortNames (ks : List Name) : List Name := ks.mergeSort (fun a b => decide (a ≤ b))
+
+#guard sortNames ["b", "a", "B", "aa"] = ["B", "a", "aa", "b"]
+
 /-- a procedure called by name takes a level of the execution stack unless the call is counted already -/
 def enterLevel (counted : Bool) (s : State) : State :=
   if counted then s else { s with execDepth := s.execDepth + 1, hiDepth := max s.hiDepth (s.execDepth + 1) }
@@ -311,7 +318,7 @@ def callBuiltin : Nat → (maxOps : Nat) → State → String → State × Res
           match obj with
           | .arr r o l => forallArr fuel m (setStack s rest) r o 0 l proc
           | .str r o l => forallStr fuel m (setStack s rest) r o 0 l proc
-          | .dict d => forallDict fuel m (setStack s rest) d ((s.vm.getDict d).map (·.1)) proc
+          | .dict d => forallDict fuel m (setStack s rest) d (sortNames ((s.vm.getDict d).map (·.1))) proc
           | _ => psErrS s "typecheck"
         | _ => psErrS s "typecheck"
       | _ => psErrS s "stackunderflow"
@@ -399,7 +406,7 @@ def forallStr : Nat → (maxOps : Nat) → State → (ref off i todo : Nat) → 
       | .ok => forallStr fuel m s1 ref off (i + 1) todo proc
       | _ => (s1, r)
 
-/-- `for key, val := range obj` in the order `keys` (an order oracle: Go's is unspecified) -/
+/-- `for _, key := range keys { val, ok := obj[key]; … }` over the sorted key snapshot `keys` (`sortNames`) -/
 def forallDict : Nat → (maxOps : Nat) → State → Nat → List Name → Obj → State × Res
   | 0, _, s, _, _, _ => (s, .fuel)
   | _ + 1, _, s, _, [], _ => okS s
